@@ -78,13 +78,14 @@ def generate(R, tier):
             s["mss"] = -1
         if s["bad_ttl"]:
             s["ttl"] = min(255, max(1, p["ttl"] + R.choice([0, 3, 40])))
-        hops = R.choice([0, 0, 0, 1, 2, 7, 34])
-        hops = max(0, min(hops, s["ttl"] - 1, MD - 1))
+        md = R.choice([MD] * 8 + [48, 60, 255])            # the caller's max_dist when the output is fingerprinted again
+        hops = R.choice([0, 0, 0, 1, 2, 7, 34] + ([36, 40, md - 1] if md > MD else []))
+        hops = max(0, min(hops, s["ttl"] - 1, md - 1))
         base = admissible_base(R, wspec["v"], ty)
         if edge and s["wtype"] == 3:
             h = R.choice([1, 50, 99, 100, 101, 65535 // s["wsize"], 65535 // s["wsize"] + 1, 65535])
             base["opts"] = W.pad4(W.o_mss(max(0, min(65535, h))) + R.choice(["", "01" + W.o_ws(7)]), "01")
-        yield {"stream": "witness", "witness": wspec, "sig": G.sig_text(s), "base": base, "ether": R.choice([False] * 16 + [True, True, "padded", "padded"]), "hops": hops,
+        yield {"stream": "witness", "witness": wspec, "sig": G.sig_text(s), "base": base, "ether": R.choice([False] * 16 + [True, True, "padded", "padded"]), "hops": hops, "md": md,
                "mtu": R.choice([1500, 1500, 1500, 1400, 9000]) if s["wtype"] == 4 else 1500,
                "uptime": R.choice([None, None, None, 123456]), "policy": R.choice(POLICIES)}
 
@@ -102,18 +103,18 @@ def model_cases(cases, impl_res, run_model):
     for i, (c, ir) in enumerate(zip(cases, impl_res)):
         sig = c["sig"].encode().hex()
         wv = W.full(c["witness"])["v"]
-        lines.append("oracle %d %s 0 %d %s" % (MD, sig, wv, W.build(c["witness"]).hex()))
+        lines.append("oracle %d %s 0 %d %s" % (c.get("md", MD), sig, wv, W.build(c["witness"]).hex()))
         where.append((i, "witness"))
         if isinstance(ir, dict) and "base" in ir:
             b = ir["base"]
             o = lambda v: -1 if v is None else v
-            lines.append("imp_tcp %s %d %s %s %d %d %d %d %d %d %d %d %d %d %d %d %d %d %d %s %d %d %d %d %s" % (
-                sig, b["ver"], b["src"], b["dst"], b["id"], b["ipflags"], b["frag"], b["proto"], b["sport"], b["dport"], b["seq"], b["ack"],
+            lines.append("imp_tcp %d %s %d %s %s %d %d %d %d %d %d %d %d %d %d %d %d %d %d %d %s %d %d %d %d %s" % (
+                c.get("md", MD), sig, b["ver"], b["src"], b["dst"], b["id"], b["ipflags"], b["frag"], b["proto"], b["sport"], b["dport"], b["seq"], b["ack"],
                 b["flags"], b["urg"], b["win"], o(b["mss"]), o(b["ws"]), o(b["ts1"]), o(b["ts2"]), b["payload"] or "-",
                 c["hops"], c["mtu"], o(c["uptime"]), len(ir["tape"]), " ".join(map(str, ir["tape"]))))
             where.append((i, "model"))
         if isinstance(ir, dict) and ir.get("bytes"):
-            lines.append("oracle %d %s 0 %d %s" % (MD, sig, ir["ver"], ir["bytes"]))
+            lines.append("oracle %d %s 0 %d %s" % (c.get("md", MD), sig, ir["ver"], ir["bytes"]))
             where.append((i, "oracle"))
     for (i, k), r in zip(where, run_model(lines)):
         out[i][k] = r
@@ -219,7 +220,7 @@ def impl_init():
         out["basef"] = {"src": ip.src, "dst": ip.dst}
         db = U.load_db("[tcp:request]\nlabel = s:unix:X:y\nsig = %s\n[tcp:response]\nlabel = s:unix:X:y\nsig = %s\n" % (c["sig"], c["sig"]))
         try:
-            r = fingerprint_tcp(U.scapy_from_bytes(raw, ip.version), options=Options(database=db, max_dist=MD))
+            r = fingerprint_tcp(U.scapy_from_bytes(raw, ip.version), options=Options(database=db, max_dist=c.get("md", MD)))
             out["fp"] = [None if r.match is None else r.match.type.name, r.distance]
         except PacketError:
             out["fp"] = "PacketError"
